@@ -1,18 +1,633 @@
-//! C20 — not built yet (stub).
+//! C20 — CSV export is a faithful rectangular rendering of the active sheet.
+//!
+//! One pool case = one sheet specification, exported under every option combination
+//! (10 encodings x trim on/off x wrap none / " / ').  Oracle: decode the bytes with the selected encoding
+//! (harness's own option->encoding mapping; encoding_rs decoders, hand-written UTF-16), parse with the
+//! harness's RFC-4180 parser (delimiter ',', quote = wrap char, none => no quoting), compare with the grid.
 use crate::common::*;
+use crate::e1::*;
 use crate::pool::*;
-use serde_json::Value;
+use serde_json::{json, Value};
+use umya_spreadsheet::structs::{CsvEncodeValues, CsvWriterOption};
 
 pub fn entry() -> crate::Entry {
     crate::Entry { id: "C20", run, space, replay }
 }
-pub fn space(_tier: Tier, _id: &str) -> Option<Box<dyn Space>> {
-    None
+
+// ------------------------------------------------------------------------------------------------
+// options
+#[derive(Clone, Copy, Debug, PartialEq)]
+enum Enc {
+    Utf8,
+    ShiftJis,
+    Koi8u,
+    Koi8r,
+    Iso88598i,
+    Gbk,
+    EucKr,
+    Big5,
+    Utf16Le,
+    Utf16Be,
 }
-fn replay(_tier: Tier, _case: &Value) -> Vec<Violation> {
-    vec![]
+const ENCS: [Enc; 10] = [Enc::Utf8, Enc::ShiftJis, Enc::Koi8u, Enc::Koi8r, Enc::Iso88598i, Enc::Gbk, Enc::EucKr, Enc::Big5, Enc::Utf16Le, Enc::Utf16Be];
+impl Enc {
+    fn name(&self) -> &'static str {
+        match self {
+            Enc::Utf8 => "utf8",
+            Enc::ShiftJis => "shift_jis",
+            Enc::Koi8u => "koi8-u",
+            Enc::Koi8r => "koi8-r",
+            Enc::Iso88598i => "iso-8859-8-i",
+            Enc::Gbk => "gbk",
+            Enc::EucKr => "euc-kr",
+            Enc::Big5 => "big5",
+            Enc::Utf16Le => "utf16le",
+            Enc::Utf16Be => "utf16be",
+        }
+    }
+    fn option(&self) -> CsvEncodeValues {
+        match self {
+            Enc::Utf8 => CsvEncodeValues::Utf8,
+            Enc::ShiftJis => CsvEncodeValues::ShiftJis,
+            Enc::Koi8u => CsvEncodeValues::Koi8u,
+            Enc::Koi8r => CsvEncodeValues::Koi8r,
+            Enc::Iso88598i => CsvEncodeValues::Iso88598i,
+            Enc::Gbk => CsvEncodeValues::Gbk,
+            Enc::EucKr => CsvEncodeValues::EucKr,
+            Enc::Big5 => CsvEncodeValues::Big5,
+            Enc::Utf16Le => CsvEncodeValues::Utf16Le,
+            Enc::Utf16Be => CsvEncodeValues::Utf16Be,
+        }
+    }
+    /// WHATWG label of the byte encoding (harness's own mapping); None for UTF-16 (own decoder)
+    fn label(&self) -> Option<&'static str> {
+        match self {
+            Enc::Utf8 => Some("utf-8"),
+            Enc::ShiftJis => Some("shift_jis"),
+            Enc::Koi8u => Some("koi8-u"),
+            Enc::Koi8r => Some("koi8-r"),
+            Enc::Iso88598i => Some("iso-8859-8-i"),
+            Enc::Gbk => Some("gbk"),
+            Enc::EucKr => Some("euc-kr"),
+            Enc::Big5 => Some("big5"),
+            _ => None,
+        }
+    }
+    /// a word outside ASCII that the encoding can represent
+    fn word(&self) -> &'static str {
+        match self {
+            Enc::Utf8 | Enc::Utf16Le | Enc::Utf16Be => "\u{e9}\u{540d}\u{1F600}z",
+            Enc::ShiftJis => "\u{304b}\u{306a}\u{6f22}\u{5b57}",
+            Enc::Koi8u => "\u{457}\u{436}\u{430}\u{43a}\u{491}\u{454}",
+            Enc::Koi8r => "\u{43a}\u{438}\u{440}\u{438}\u{43b}\u{43b}\u{438}\u{446}\u{430}",
+            Enc::Iso88598i => "\u{5e2}\u{5d1}\u{5e8}\u{5d9}\u{5ea}",
+            Enc::Gbk => "\u{4e2d}\u{6587}\u{7b80}\u{4f53}",
+            Enc::EucKr => "\u{d55c}\u{ae00}",
+            Enc::Big5 => "\u{4e2d}\u{6587}\u{7e41}\u{9ad4}",
+        }
+    }
 }
-fn run(_ctx: &Ctx) -> i32 {
-    eprintln!("MACHINERY: C20 is not built yet");
-    2
+#[derive(Clone, Copy, Debug, PartialEq)]
+struct Opt {
+    enc: Enc,
+    trim: bool,
+    wrap: Option<char>,
+}
+fn options() -> Vec<Opt> {
+    let mut v = vec![];
+    for enc in ENCS {
+        for trim in [false, true] {
+            for wrap in [None, Some('"'), Some('\'')] {
+                v.push(Opt { enc, trim, wrap });
+            }
+        }
+    }
+    v
+}
+fn wrap_name(w: Option<char>) -> &'static str {
+    match w {
+        None => "none",
+        Some('"') => "dq",
+        _ => "apos",
+    }
+}
+
+// ------------------------------------------------------------------------------------------------
+// decoding
+fn decode_utf16(bytes: &[u8], be: bool) -> Option<String> {
+    if bytes.len() % 2 != 0 {
+        return None;
+    }
+    let units: Vec<u16> = bytes.chunks_exact(2).map(|c| if be { u16::from_be_bytes([c[0], c[1]]) } else { u16::from_le_bytes([c[0], c[1]]) }).collect();
+    let mut out = String::new();
+    let mut i = 0;
+    while i < units.len() {
+        let u = units[i];
+        if (0xD800..0xDC00).contains(&u) {
+            if i + 1 >= units.len() || !(0xDC00..0xE000).contains(&units[i + 1]) {
+                return None;
+            }
+            let c = 0x10000 + (((u as u32) - 0xD800) << 10) + (units[i + 1] as u32 - 0xDC00);
+            out.push(char::from_u32(c)?);
+            i += 2;
+        } else if (0xDC00..0xE000).contains(&u) {
+            return None;
+        } else {
+            out.push(char::from_u32(u as u32)?);
+            i += 1;
+        }
+    }
+    Some(out)
+}
+fn decode_bytes(bytes: &[u8], enc: Enc) -> Option<String> {
+    match enc {
+        Enc::Utf16Le => decode_utf16(bytes, false),
+        Enc::Utf16Be => decode_utf16(bytes, true),
+        _ => {
+            let e = encoding_rs::Encoding::for_label(enc.label().unwrap().as_bytes()).expect("label");
+            e.decode_without_bom_handling_and_without_replacement(bytes).map(|c| c.into_owned())
+        }
+    }
+}
+
+// ------------------------------------------------------------------------------------------------
+// RFC 4180 parser (delimiter ',', optional quote character; record ends at CRLF, LF or CR outside quotes)
+fn parse_csv(text: &str, quote: Option<char>) -> Result<Vec<Vec<String>>, &'static str> {
+    let cs: Vec<char> = text.chars().collect();
+    let mut recs: Vec<Vec<String>> = vec![];
+    let mut rec: Vec<String> = vec![];
+    let mut i = 0;
+    let n = cs.len();
+    if n == 0 {
+        return Ok(recs);
+    }
+    loop {
+        // one field
+        let mut field = String::new();
+        if i < n && Some(cs[i]) == quote {
+            let q = cs[i];
+            i += 1;
+            loop {
+                if i >= n {
+                    return Err("unterminated-quoted-field");
+                }
+                if cs[i] == q {
+                    if i + 1 < n && cs[i + 1] == q {
+                        field.push(q);
+                        i += 2;
+                        continue;
+                    }
+                    i += 1;
+                    break;
+                }
+                field.push(cs[i]);
+                i += 1;
+            }
+            if i < n && cs[i] != ',' && cs[i] != '\r' && cs[i] != '\n' {
+                return Err("text-after-closing-quote");
+            }
+        } else {
+            while i < n && cs[i] != ',' && cs[i] != '\r' && cs[i] != '\n' {
+                field.push(cs[i]);
+                i += 1;
+            }
+        }
+        rec.push(field);
+        if i >= n {
+            recs.push(std::mem::take(&mut rec));
+            break;
+        }
+        if cs[i] == ',' {
+            i += 1;
+            if i >= n {
+                // trailing delimiter: one more empty field
+                rec.push(String::new());
+                recs.push(std::mem::take(&mut rec));
+                break;
+            }
+            continue;
+        }
+        // record terminator
+        if cs[i] == '\r' && i + 1 < n && cs[i + 1] == '\n' {
+            i += 2;
+        } else {
+            i += 1;
+        }
+        recs.push(std::mem::take(&mut rec));
+        if i >= n {
+            break;
+        }
+    }
+    Ok(recs)
+}
+
+// ------------------------------------------------------------------------------------------------
+// sheet specifications
+#[derive(Clone, Debug, PartialEq)]
+enum V {
+    /// plain text distinct per position
+    Pos,
+    Num(f64),
+    Bool(bool),
+    Text(&'static str),
+    /// the per-encoding non-ASCII word
+    Word,
+}
+const SPECIALS: [(&str, V); 13] = [
+    ("plain", V::Text("abc")),
+    ("delim", V::Text("a,b")),
+    ("dq", V::Text("a\"b")),
+    ("apos", V::Text("a'b")),
+    ("crlf", V::Text("a\r\nb")),
+    ("lf", V::Text("a\nb")),
+    ("cr", V::Text("a\rb")),
+    ("edge-blanks", V::Text("  a b ")),
+    ("dqdq", V::Text("\"\"")),
+    ("aposapos", V::Text("''")),
+    ("only-delim", V::Text(",")),
+    ("nonascii", V::Word),
+    ("inner-blanks", V::Text("a  b")),
+];
+#[derive(Clone, Debug)]
+struct Spec {
+    kind: String,
+    /// sheets: list of cells (col,row,value); `active` is the sheet exported
+    sheets: Vec<Vec<(u32, u32, V)>>,
+    active: usize,
+}
+fn specs() -> Vec<Spec> {
+    let mut v = vec![];
+    // (1) all presence patterns of a 3x3 grid, simplest first
+    let mut masks: Vec<u32> = (0..512).collect();
+    masks.sort_by_key(|m| (m.count_ones(), *m));
+    for m in masks {
+        let mut cells = vec![];
+        for r in 1..=3u32 {
+            for c in 1..=3u32 {
+                if m & (1 << ((r - 1) * 3 + (c - 1))) != 0 {
+                    let val = match (c, r) {
+                        (2, 2) => V::Num(1234.5),
+                        (3, 1) => V::Bool(true),
+                        (1, 3) => V::Num(-7.0),
+                        _ => V::Pos,
+                    };
+                    cells.push((c, r, val));
+                }
+            }
+        }
+        v.push(Spec { kind: format!("presence:{:09b}", m), sheets: vec![cells], active: 0 });
+    }
+    // (2) each special value at each of 4 positions, neighbours absent / present
+    for (name, val) in SPECIALS.iter() {
+        for (pc, pr) in [(1u32, 1u32), (2, 1), (3, 1), (1, 2), (2, 2), (3, 2), (1, 3), (2, 3), (3, 3)] {
+            for neighbours in [false, true] {
+                let mut cells = vec![];
+                if neighbours {
+                    for r in 1..=3 {
+                        for c in 1..=3 {
+                            if (c, r) != (pc, pr) {
+                                cells.push((c, r, V::Pos));
+                            }
+                        }
+                    }
+                }
+                cells.push((pc, pr, val.clone()));
+                v.push(Spec { kind: format!("single:{}@{},{}:{}", name, pc, pr, if neighbours { "full" } else { "alone" }), sheets: vec![cells], active: 0 });
+            }
+        }
+    }
+    // (3) every ordered pair of special values in adjacent cells (side by side, one above the other)
+    for (n1, v1) in SPECIALS.iter() {
+        for (n2, v2) in SPECIALS.iter() {
+            for horizontal in [true, false] {
+                let second = if horizontal { (2, 1) } else { (1, 2) };
+                let cells = vec![(1, 1, v1.clone()), (second.0, second.1, v2.clone())];
+                v.push(Spec { kind: format!("pair:{}|{}:{}", n1, n2, if horizontal { "row" } else { "column" }), sheets: vec![cells], active: 0 });
+            }
+        }
+    }
+    // (4) active sheet is not the first one / not the last one
+    let target = vec![(1, 1, V::Pos), (3, 2, V::Text("abc")), (2, 3, V::Pos)];
+    let decoy_big = vec![(1, 1, V::Text("decoy")), (4, 4, V::Text("decoy"))];
+    let decoy_small = vec![(1, 1, V::Text("decoy"))];
+    v.push(Spec { kind: "active:second-of-2".into(), sheets: vec![decoy_big.clone(), target.clone()], active: 1 });
+    v.push(Spec { kind: "active:third-of-3".into(), sheets: vec![decoy_big.clone(), decoy_small.clone(), target.clone()], active: 2 });
+    v.push(Spec { kind: "active:second-of-3".into(), sheets: vec![decoy_small.clone(), target.clone(), decoy_big.clone()], active: 1 });
+    v.push(Spec { kind: "active:first-of-3".into(), sheets: vec![target.clone(), decoy_big.clone(), decoy_small.clone()], active: 0 });
+    v.push(Spec { kind: "active:empty-second-of-2".into(), sheets: vec![decoy_big, vec![]], active: 1 });
+    v
+}
+fn value_text(v: &V, c: u32, r: u32, enc: Enc) -> String {
+    match v {
+        V::Pos => format!("r{}c{}", r, c),
+        V::Num(x) => x.to_string(),
+        V::Bool(b) => if *b { "TRUE".into() } else { "FALSE".into() },
+        V::Text(t) => t.to_string(),
+        V::Word => enc.word().to_string(),
+    }
+}
+fn build(spec: &Spec, enc: Enc) -> umya_spreadsheet::Spreadsheet {
+    let mut book = umya_spreadsheet::new_file();
+    for (i, cells) in spec.sheets.iter().enumerate() {
+        if i > 0 {
+            book.new_sheet(format!("Sheet{}", i + 1)).unwrap();
+        }
+        let ws = book.get_sheet_mut(&i).unwrap();
+        for (c, r, v) in cells {
+            let cell = ws.get_cell_mut((*c, *r));
+            match v {
+                V::Num(x) => {
+                    cell.set_value_number(*x);
+                }
+                V::Bool(b) => {
+                    cell.set_value_bool(*b);
+                }
+                _ => {
+                    cell.set_value_string(value_text(v, *c, *r, enc));
+                }
+            }
+        }
+    }
+    book.set_active_sheet(spec.active as u32);
+    book
+}
+fn own_trim(s: &str) -> &str {
+    s.trim_matches(|c| c == ' ' || c == '\t')
+}
+/// the grid the statement demands: rows 1..=max_row x columns 1..=max_col of the active sheet
+fn expected_grid(spec: &Spec, opt: Opt) -> Vec<Vec<String>> {
+    let cells = &spec.sheets[spec.active];
+    let max_c = cells.iter().map(|x| x.0).max().unwrap_or(0);
+    let max_r = cells.iter().map(|x| x.1).max().unwrap_or(0);
+    let mut g = vec![vec![String::new(); max_c as usize]; max_r as usize];
+    for (c, r, v) in cells {
+        let t = value_text(v, *c, *r, opt.enc);
+        g[(*r - 1) as usize][(*c - 1) as usize] = if opt.trim { own_trim(&t).to_string() } else { t };
+    }
+    g
+}
+
+/// feature tags of (sheet, options)
+fn case_tags(spec: &Spec, opt: Opt) -> Vec<String> {
+    let mut t: Vec<String> = vec![];
+    let (mut delim, mut dq, mut apos, mut cr, mut lf, mut edge, mut nonascii) = (false, false, false, false, false, false, false);
+    for (c, r, v) in &spec.sheets[spec.active] {
+        let s = value_text(v, *c, *r, opt.enc);
+        delim |= s.contains(',');
+        dq |= s.contains('"');
+        apos |= s.contains('\'');
+        cr |= s.contains('\r');
+        lf |= s.contains('\n');
+        edge |= own_trim(&s) != s;
+        nonascii |= !s.is_ascii();
+    }
+    // combinations that matter for quoting
+    if delim && opt.wrap.is_none() {
+        t.push("delimiter-in-value+wrap:none".into());
+    }
+    if cr && opt.wrap.is_none() {
+        t.push("cr-in-value+wrap:none".into());
+    }
+    if lf && opt.wrap.is_none() {
+        t.push("lf-in-value+wrap:none".into());
+    }
+    if dq && opt.wrap == Some('"') {
+        t.push("dq-in-value+wrap:dq".into());
+    }
+    if apos && opt.wrap == Some('\'') {
+        t.push("apos-in-value+wrap:apos".into());
+    }
+    if matches!(opt.enc, Enc::Utf16Le | Enc::Utf16Be) {
+        t.push("enc:utf16".into());
+    }
+    if t.is_empty() {
+        t.push("no-quoting-needed".into());
+    }
+    for (f, name) in [(delim, "val:delimiter"), (dq, "val:dq"), (apos, "val:apos"), (cr, "val:cr"), (lf, "val:lf"), (edge, "val:edge-blanks"), (nonascii, "val:nonascii")] {
+        if f {
+            t.push(name.into());
+        }
+    }
+    t.push(format!("encoding:{}", opt.enc.name()));
+    t.push(format!("wrap:{}", wrap_name(opt.wrap)));
+    t.push(format!("trim:{}", if opt.trim { "on" } else { "off" }));
+    if spec.sheets.len() > 1 {
+        t.push("multi-sheet".into());
+    }
+    t
+}
+
+fn export(spec: &Spec, opt: Opt) -> Result<Vec<u8>, String> {
+    let spec = spec.clone();
+    std::panic::catch_unwind(move || {
+        let book = build(&spec, opt.enc);
+        let mut o = CsvWriterOption::default();
+        o.set_csv_encode_value(opt.enc.option());
+        o.set_do_trim(opt.trim);
+        if let Some(w) = opt.wrap {
+            o.set_wrap_with_char(w.to_string());
+        }
+        let mut cur = std::io::Cursor::new(Vec::new());
+        match umya_spreadsheet::writer::csv::write_writer(&book, &mut cur, &o) {
+            Ok(()) => Ok(cur.into_inner()),
+            Err(e) => Err(format!("write_writer returned Err: {:?}", e)),
+        }
+    })
+    .map_err(|e| format!("panic: {}", panic_msg(&e)))
+    .and_then(|r| r)
+}
+
+fn check_export(sink: &mut Sink, spec: &Spec, opt: Opt) {
+    sink.evaluations += 1;
+    let tags_owned = case_tags(spec, opt);
+    let tags: Vec<&str> = tags_owned.iter().map(|s| s.as_str()).collect();
+    let case = json!({"sheet": spec.kind, "encoding": opt.enc.name(), "trim": opt.trim, "wrap": wrap_name(opt.wrap)});
+    let want = expected_grid(spec, opt);
+    let bytes = match export(spec, opt) {
+        Ok(b) => b,
+        Err(m) => {
+            let sym = if m.starts_with("panic") { format!("panic:{}", panic_class(&m)) } else { "returned-error".to_string() };
+            push(sink, Violation::new("export-succeeds", &sym, &tags, case, m));
+            return;
+        }
+    };
+    sink.obs(&format!("{:?}", bytes));
+    let show = |b: &[u8]| -> String { String::from_utf8_lossy(&b[..b.len().min(120)]).escape_debug().to_string() };
+    // ---- encoding clause
+    let mut text = decode_bytes(&bytes, opt.enc);
+    if matches!(opt.enc, Enc::Utf16Le | Enc::Utf16Be) {
+        // a UTF-16 stream of a non-empty grid contains line breaks as 16-bit units; if it does not, look at
+        // what the bytes are instead so that the grid clauses can still be evaluated on the real text
+        let plausible = want.is_empty() || text.as_ref().map(|t| t.contains('\n') || t.contains('\r')).unwrap_or(false);
+        if !plausible {
+            match std::str::from_utf8(&bytes) {
+                Ok(u) if !u.contains('\0') && (u.contains('\n') || u.contains('\r')) => {
+                    push(sink, Violation::new("encoding", "utf8-bytes-instead-of-utf16", &tags, case.clone(), format!("selected {} but the {} bytes are UTF-8 text: {}", opt.enc.name(), bytes.len(), show(&bytes))));
+                    text = Some(u.to_string());
+                }
+                _ => {
+                    push(sink, Violation::new("encoding", "not-utf16", &tags, case.clone(), format!("selected {} but the bytes do not decode to CSV text: {}", opt.enc.name(), show(&bytes))));
+                    return;
+                }
+            }
+        }
+    }
+    let text = match text {
+        Some(t) => t,
+        None => {
+            push(sink, Violation::new("encoding", "undecodable-in-selected-encoding", &tags, case, format!("bytes are not valid {}: {}", opt.enc.name(), show(&bytes))));
+            return;
+        }
+    };
+    // ---- grid clauses
+    // With no wrap character a writer can only stay parseable by quoting on demand with the RFC default
+    // quote: output that a parser with quote '"' maps to exactly the grid is accepted as well.
+    if opt.wrap.is_none() {
+        if let Ok(r) = parse_csv(&text, Some('"')) {
+            if r == want {
+                return;
+            }
+        }
+    }
+    let recs = match parse_csv(&text, opt.wrap) {
+        Ok(r) => r,
+        Err(why) => {
+            push(sink, Violation::new("parses", why, &tags, case, format!("RFC-4180 parser (quote {:?}) rejects {:?}", opt.wrap, text)));
+            return;
+        }
+    };
+    if recs.len() != want.len() {
+        let sym = if recs.len() > want.len() { "too-many-records" } else { "too-few-records" };
+        push(sink, Violation::new("records", sym, &tags, case, format!("{} records parsed from {:?}, sheet has rows 1..={}", recs.len(), text, want.len())));
+        return;
+    }
+    let all_expected: Vec<&String> = want.iter().flatten().filter(|s| !s.is_empty()).collect();
+    let mut seen: Vec<&'static str> = vec![];
+    for (ri, (rec, wrow)) in recs.iter().zip(want.iter()).enumerate() {
+        if rec.len() != wrow.len() {
+            let sym = if rec.len() > wrow.len() { "too-many-fields" } else { "too-few-fields" };
+            if !seen.contains(&sym) {
+                seen.push(sym);
+                push(sink, Violation::new("fields", sym, &tags, case.clone(), format!("record {} has {} fields, sheet has columns 1..={}; text {:?}", ri + 1, rec.len(), wrow.len(), text)));
+            }
+            continue;
+        }
+        for (ci, (g, w)) in rec.iter().zip(wrow.iter()).enumerate() {
+            if g != w {
+                let sym = if opt.trim && own_trim(g) == w.as_str() {
+                    "not-trimmed"
+                } else if !opt.trim && g.as_str() == own_trim(w) {
+                    "trimmed-without-option"
+                } else if opt.wrap.map(|q| *g == w.replace(&format!("{}{}", q, q), &q.to_string())).unwrap_or(false) {
+                    "embedded-quotes-not-doubled"
+                } else if g.is_empty() {
+                    "value-missing"
+                } else if w.is_empty() && all_expected.contains(&g) {
+                    "value-in-wrong-cell"
+                } else if all_expected.contains(&g) {
+                    "other-cells-value"
+                } else if opt.wrap.is_some() && g.len() >= 2 && g.starts_with(opt.wrap.unwrap()) && g.ends_with(opt.wrap.unwrap()) {
+                    "wrap-char-left-in-value"
+                } else {
+                    "value-changed"
+                };
+                if !seen.contains(&sym) {
+                    seen.push(sym);
+                    push(sink, Violation::new("values", sym, &tags, case.clone(), format!("row {} column {}: parsed {:?}, cell holds {:?}; text {:?}", ri + 1, ci + 1, g, w, text)));
+                }
+            }
+        }
+    }
+}
+
+/// record a violation and count it in the (clause | symptom | quoting-relevant tags) matrix of the evidence
+fn push(sink: &mut Sink, v: Violation) {
+    let combo: Vec<&str> = v.tags.iter().map(|s| s.as_str()).filter(|t| t.contains('+') || *t == "enc:utf16" || *t == "no-quoting-needed").collect();
+    sink.count(&format!("bad {} | {} | {}", v.clause, v.symptom, combo.join(" ")), 1);
+    sink.violations.push(v);
+}
+
+struct Sheets {
+    specs: Vec<Spec>,
+}
+impl Space for Sheets {
+    fn len(&self) -> u64 {
+        self.specs.len() as u64
+    }
+    fn describe(&self, i: u64) -> Value {
+        json!({"sheet": self.specs[i as usize].kind, "options": "10 encodings x trim on/off x wrap none/dq/apos"})
+    }
+    fn run(&self, i: u64, sink: &mut Sink) {
+        let spec = &self.specs[i as usize];
+        for opt in options() {
+            check_export(sink, spec, opt);
+        }
+    }
+}
+
+/// harness self-check: every per-encoding word is representable in its encoding and decodes back
+fn self_check() -> Result<(), String> {
+    for enc in ENCS {
+        if let Some(l) = enc.label() {
+            let e = encoding_rs::Encoding::for_label(l.as_bytes()).ok_or("label")?;
+            let (b, _, bad) = e.encode(enc.word());
+            if bad {
+                return Err(format!("word of {} is not representable", enc.name()));
+            }
+            if decode_bytes(&b, enc).as_deref() != Some(enc.word()) {
+                return Err(format!("word of {} does not decode back", enc.name()));
+            }
+        }
+    }
+    // parser self-check
+    let p = parse_csv("\"a,\"\"b\r\n\",x\r\nc,\r\n", Some('"')).map_err(|e| e.to_string())?;
+    if p != vec![vec!["a,\"b\r\n".to_string(), "x".to_string()], vec!["c".to_string(), String::new()]] {
+        return Err(format!("parser self-check: {:?}", p));
+    }
+    let le: Vec<u8> = "a\u{1F600}".encode_utf16().flat_map(|u| u.to_le_bytes()).collect();
+    if decode_utf16(&le, false).as_deref() != Some("a\u{1F600}") {
+        return Err("utf16 self-check".into());
+    }
+    Ok(())
+}
+
+pub fn space(_tier: Tier, id: &str) -> Option<Box<dyn Space>> {
+    match id {
+        "sheets" => Some(Box::new(Sheets { specs: specs() })),
+        _ => None,
+    }
+}
+
+fn replay(tier: Tier, case: &Value) -> Vec<Violation> {
+    replay_e1(space(tier, case["_space"].as_str().unwrap_or("")), case)
+}
+
+fn run(ctx: &Ctx) -> i32 {
+    if let Err(e) = self_check() {
+        eprintln!("MACHINERY: C20 self-check failed: {}", e);
+        return 2;
+    }
+    let spaces = vec![("sheets", space(ctx.tier, "sheets").unwrap())];
+    let n = specs().len();
+    run_e1(
+        ctx,
+        E1Spec {
+            spaces,
+            cfg: PoolCfg { chunk: 4, case_timeout: std::time::Duration::from_secs(60), ..Default::default() },
+            level: "exploration",
+            rule: "every sheet specification (all 512 presence patterns of a 3x3 grid with position-distinct text, a number and a boolean; each of 13 special values at each of the 9 positions with neighbours absent/present; every ordered pair of special values side by side and one above the other; 5 multi-sheet workbooks whose active sheet is not the first / not the last / empty) x every option combination (10 encodings x trim x wrap). Per export: bytes from writer::csv::write_writer are decoded with the selected encoding (own option->label mapping, encoding_rs decoders without replacement, hand-written UTF-16LE/BE decoder), parsed by the harness's RFC-4180 parser (delimiter ',', quote = wrap char, no quoting when none; CRLF/LF/CR record ends) and compared with the grid rows 1..max_row x columns 1..max_col of the active sheet (values trimmed of blanks/tabs when trim is on). distinct_nontrivial = distinct byte outputs".into(),
+            alphabets: json!({"sheet_specs": n, "special_values": SPECIALS.iter().map(|(n, v)| json!({"name": n, "value": match v { V::Text(t) => t.to_string(), _ => "per-encoding word".to_string() }})).collect::<Vec<_>>(),
+                "encodings": ENCS.iter().map(|e| e.name()).collect::<Vec<_>>(), "trim": [false, true], "wrap": ["none", "\"", "'"], "option_combinations": options().len()}),
+            bounds: json!({"grid": "3x3 (multi-sheet decoys up to 4x4)", "values_per_pair_sheet": 2, "both_tiers": "identical (the whole space runs in a few seconds)"}),
+            exhaustive: true,
+            caps_hit: vec![],
+            assumptions: vec![
+                "non-ASCII text is a per-encoding word that the selected encoding can represent (lossy transcoding is never demanded)".into(),
+                "trimmed = leading/trailing blanks and tabs removed; cells with an empty value are not used (what 'used' means for them is not pinned)".into(),
+                "the wrap option is a single character (\" or '); with wrap none the output must be recovered by a parser without quote character or by one with the RFC default quote \" (on-demand quoting is accepted)".into(),
+                "for UTF-16 options whose output is really UTF-8 the encoding clause is reported and the grid clauses are then evaluated on the UTF-8 text".into(),
+            ],
+            min_distinct: 300,
+        },
+    )
 }
